@@ -2,39 +2,12 @@ import PysamlModel.Model.MiniPy
 import PysamlModel.Model.Sp
 import PysamlModel.Gen.PyFuns
 import PysamlModel.Model.PyEnc
+import PysamlModel.Proofs.MiniPy
 
 /-! Helper lemmas for Props/PyTie.lean: environments, one iteration and the two loops of `for_me`. -/
 
 namespace PyTie
 open MiniPy Gen.PyFuns
-
-theorem lookup_setVar_same (env : Env) (x : String) (v : Val) : lookup (setVar env x v) x = some v := by
-  simp [lookup, setVar]
-
-theorem find_filter_ne (x y : String) (h : y ≠ x) (env : Env) :
-    List.find? (fun p => p.1 == y) (List.filter (fun p => p.1 != x) env) = List.find? (fun p => p.1 == y) env := by
-  induction env with
-  | nil => rfl
-  | cons p ps ih =>
-    rcases p with ⟨k, w⟩
-    by_cases hk : k = x
-    · subst hk
-      have hky : (k == y) = false := by simpa using (fun e => h e.symm)
-      simp [List.filter_cons, List.find?_cons, hky, ih]
-    · have hkx : (k != x) = true := by simpa using hk
-      by_cases hy : k = y
-      · subst hy; simp [List.filter_cons, List.find?_cons, hkx]
-      · have hky : (k == y) = false := by simpa using hy
-        simp [List.filter_cons, List.find?_cons, hkx, hky, ih]
-
-theorem lookup_setVar_ne (env : Env) (x y : String) (v : Val) (h : y ≠ x) :
-    lookup (setVar env x v) y = lookup env y := by
-  have h1 : ((x == y) = false) := by simpa using (fun e => h e.symm)
-  simp only [lookup, setVar, List.find?_cons, h1, find_filter_ne x y h env]
-
-theorem lookup_cons_same (k : String) (v : Val) (fs : List (String × Val)) : lookup ((k, v) :: fs) k = some v := by
-  simp [lookup]
-
 
 /-- one Audience value satisfies the reader: text present, non-empty, and equal to `me` after stripping -/
 def audMatches (me : String) (a : Option String) : Bool :=
@@ -76,14 +49,14 @@ theorem inner_loop (n : Nat) (me : String) : ∀ (as : List (Option String)) (en
     lookup env "myself" = some (.str me) →
     (as.any (audMatches me) = true → ∃ env', forLoop (innerB n) (innerE n) (as.map encA) env = .normal env' ∧
         lookup env' "myself" = some (.str me) ∧ lookup env' "matched" = some (.bool true)) ∧
-    (as.any (audMatches me) = false → forLoop (innerB n) (innerE n) (as.map encA) env = .ret (.bool false)) := by
+    (as.any (audMatches me) = false → ∃ e, forLoop (innerB n) (innerE n) (as.map encA) env = .ret (.bool false) e) := by
   intro as
   induction as with
   | nil =>
     intro env _
     refine ⟨by simp, ?_⟩
     intro _
-    simp [forLoop, innerE, innerElse, evalBlock, evalStmt, evalExpr]
+    exact ⟨env, by simp [forLoop, innerE, innerElse, evalBlock, evalStmt, evalExpr]⟩
   | cons a as ih =>
     intro env hme
     have hstep := inner_step n me env a hme
@@ -132,7 +105,7 @@ def rHit (me : String) (r : List (Option String)) : Bool := !r.isEmpty && r.any 
 
 theorem outer_loop (n : Nat) (me : String) : ∀ (rs : List (List (Option String))) (env : Env) (m : Bool),
     lookup env "myself" = some (.str me) → lookup env "matched" = some (.bool m) →
-    (rs.all (rOk me) = false → forLoop (outerB n) (outerE n) (rs.map encR) env = .ret (.bool false)) ∧
+    (rs.all (rOk me) = false → ∃ e, forLoop (outerB n) (outerE n) (rs.map encR) env = .ret (.bool false) e) ∧
     (rs.all (rOk me) = true → ∃ env', forLoop (outerB n) (outerE n) (rs.map encR) env = .normal env' ∧
         lookup env' "myself" = some (.str me) ∧ lookup env' "matched" = some (.bool (m || rs.any (rHit me)))) := by
   intro rs
@@ -170,8 +143,8 @@ theorem outer_loop (n : Nat) (me : String) : ∀ (rs : List (List (Option String
         have ih' := ih env' true hme' hma'
         simpa [List.all_cons, List.any_cons, rOk, rHit, he', hm] using ih'
       · have hm' : r.any (audMatches me) = false := by simpa using hm
-        have hl := hin.2 hm'
-        have hunf : forLoop (outerB n) (outerE n) ((r :: rs).map encR) env = .ret (.bool false) := by
+        obtain ⟨e, hl⟩ := hin.2 hm'
+        have hunf : forLoop (outerB n) (outerE n) ((r :: rs).map encR) env = .ret (.bool false) e := by
           simp only [List.map_cons, forLoop]
           rw [hstep]; simp [he', hl]
         rw [hunf]
@@ -204,16 +177,5 @@ theorem forMe_toModel (me : String) (rs : List (List (Option String))) :
     congr 1
     · congr 1; funext r; simp [rOk, restrictionMatches_toModel]
     · congr 1; funext r; simp [rHit, restrictionMatches_toModel]
-
-theorem evalBlock_cons (strip : String → String) (ext : Ext) (f : Nat) (env : Env) (st : Stmt) (ss : List Stmt) :
-    evalBlock strip ext (f + 1) env (st :: ss) =
-      (match evalStmt strip ext f env st with
-       | .normal env' => evalBlock strip ext f env' ss
-       | other => other) := by
-  rfl
-
-theorem evalBlock_nil (strip : String → String) (ext : Ext) (f : Nat) (env : Env) :
-    evalBlock strip ext (f + 1) env [] = .normal env := by
-  simp [evalBlock]
 
 end PyTie
